@@ -23,13 +23,20 @@ ORACLES = {
     "O_fence_content": "markdown-it: a backtick/tilde/colon fence whose body has no closing line gives one token with "
                        "content = the lines in between, info = rest of the opening line, map = [0, n+2], env untouched "
                        "(corr: oracle:fence on generated bodies incl. nested wrappers)",
+    "fence model": "Nest/Fence.v parse_fence (the concrete instance for which O_fence_content is proved, "
+                   "C06_oracles_satisfiable) = markdown-it's fence / colon_fence token on generated fences: lengths 3-10, "
+                   "runs of other lengths and characters inside, info strings, indentation <= 3, unclosed (corr: oracle:fence-model)",
+    "O_shift": "shift_oracles of C06_line_shift_equivariant: tokens whose line would default to 0 carry a map "
+               "(corr: oracle:mapped); opaque directives / eval-rst are line-equivariant (metamorphic pairs: constant line "
+               "shift of the wrapper's children); no include directive (an included file keeps its own line numbers)",
     "O_adm": "docutils admonition classes: option_spec/arguments/has_content as adm_class/admt_class and run() = one "
              "state.nested_parse(content, content_offset, node) (+ inline_text(title) for 'admonition') "
              "(corr: class attributes + predicted nested_render_text call sequence)",
-    "O_norm": "md.parse(join('\\n', splitlines(F)) + '\\n') gives the tokens of md.parse(F) for generated F (corr: oracle:norm)",
+    "O_norm": "md.parse(join('\\n', split_lines(F)) + '\\n') gives the tokens of md.parse(F) for generated F (corr: oracle:norm)",
     "O_fs": "the included text is Path.read_text of the argument (corr: recorded nested_render_text text of include docs)",
     "O_jinja": "a substitution value without template syntax is rendered verbatim (corr: recorded text of substitution docs)",
-    "O_splitlines": "str.splitlines = Lines.splitlines (corr: model vs Python on strings over all separators)",
+    "O_splitlines": "myst_parser.parsers.directives.split_lines (regex \\r\\n|\\r|\\n) = Lines.split_lines (corr: model vs the "
+                    "implementation on strings over all str.splitlines separators)",
     "O_env_shared": "every nested parse (include, directive body, substitution) receives the SAME md_env object: state a nested "
                     "parse creates - also the first 'references' entry of the whole document - persists for every later one "
                     "(C06_registries_shared; corr/search: chains of wrappers with definitions inside k and uses inside j>k)",
@@ -319,6 +326,7 @@ def tok_dump(tokens):
 
 
 def oracle_tests(ctx):
+    from myst_parser.parsers.directives import split_lines
     rng = ctx.rng
     md = md_parser()
     # O_fence_content
@@ -342,6 +350,67 @@ def oracle_tests(ctx):
         if not ok:
             ctx.disagree("O_fence_content", {"oracle": "fence", "text": "\n".join(lines)},
                          repr([(t.type, t.map, t.info) for t in toks])[:400], f"one {want_type} token, content = body")
+    # the concrete fence model (Nest/Fence.v, the instance for which O_fence_content is proved) vs markdown-it:
+    # lengths 3-10, shorter/longer runs and other fence characters inside, info strings, indentation <= 3
+    if ctx.have_runner:
+        texts = []
+        for _ in range(ctx.budget(1500, 15000, 15000)):
+            ch = rng.choice("`~:")
+            n = rng.randint(3, 10)
+            ind = rng.choice([0, 0, 0, 1, 2, 3])
+            info = rng.choice(["", "python", "{note}", " {note} title x", "{tip} a b", " x ", "{admonition} T"])
+            if ch == "`" and rng.random() < 0.1:
+                info += " `q`"
+            lines = [" " * ind + ch * n + info]
+            for _ in range(rng.randint(0, 7)):
+                r = rng.random()
+                if r < 0.3:
+                    lines.append(" " * rng.randint(0, 3) + ch * rng.randint(1, n + 1) + rng.choice(["", "", " ", "x", "{tip}"]))
+                elif r < 0.4:
+                    lines.append("")
+                elif r < 0.5:
+                    lines.append(" " * rng.randint(0, 5) + "text")
+                elif r < 0.6:
+                    lines.append(rng.choice("`~:") * rng.randint(3, 6) + rng.choice(["", "{note}"]))
+                else:
+                    lines.append("word " + str(rng.randint(0, 9)))
+            if rng.random() < 0.8:
+                lines.append(" " * rng.choice([0, 0, 1, 3]) + ch * rng.randint(n, n + 2) + rng.choice(["", "  "]))
+            if rng.random() < 0.4:
+                lines += ["", "after"]
+            texts.append("\n".join(lines) + "\n")
+        outs = model_run(PID, ["fence\t" + enc_str(t) for t in texts])
+        for t, o in zip(texts, outs):
+            toks = md.parse(t, {})
+            if toks and toks[0].type in ("fence", "colon_fence"):
+                k = toks[0]
+                impl = " ".join(["1" if k.type == "colon_fence" else "0", enc_str(k.info), enc_str(k.content),
+                                 str(k.map[1] - k.map[0])])
+            else:
+                impl = "none"
+            ctx.corr_cases += 1
+            ctx.count("oracle:fence-model")
+            if impl != "none":
+                ctx.nontriv(("fence-model", t))
+            if impl != o:
+                ctx.disagree("fence model (Nest/Fence.v parse_fence) vs markdown-it", {"oracle": "fence-model", "text": t},
+                             impl[:300], o[:300])
+    # shift_oracles.so_P_mapped: tokens whose line would default to 0 carry a map
+    for _ in range(ctx.budget(150, 1500, 1500)):
+        F = "\n".join(G.body(rng, allow=frozenset({"directive", "heading"}))) + "\n"
+
+        def walk(ts):
+            for t in ts:
+                yield t
+                if t.children:
+                    yield from walk(t.children)
+        bad = [t.type for t in walk(md.parse(F, {})) if t.type in ("myst_target", "footnote_reference_open", "fence",
+                                                                  "colon_fence", "heading_open", "substitution_block")
+               and not t.map]
+        ctx.corr_cases += 1
+        ctx.count("oracle:mapped")
+        if bad:
+            ctx.disagree("O_shift (tokens with a default line carry a map)", {"oracle": "mapped", "text": F}, bad, "all mapped")
     # O_adm: class attributes
     from docutils.parsers.rst import directives
     from docutils.parsers.rst.languages import en
@@ -362,7 +431,7 @@ def oracle_tests(ctx):
     for _ in range(ctx.budget(200, 2000, 2000)):
         F = "\n".join(G.body(rng)) + rng.choice(["\n", "\n", "\n\n"])
         a = tok_dump(md.parse(F, {}))
-        b = tok_dump(md.parse("\n".join(F.splitlines()) + "\n", {}))
+        b = tok_dump(md.parse("\n".join(split_lines(F)) + "\n", {}))
         ctx.corr_cases += 1
         ctx.count("oracle:norm")
         if a != b:
@@ -373,7 +442,7 @@ def model_tests(ctx):
     """extracted model vs implementation"""
     from docutils.parsers.rst.directives.admonitions import Admonition, Note
     from docutils.parsers.rst.states import MarkupError
-    from myst_parser.parsers.directives import parse_directive_text
+    from myst_parser.parsers.directives import parse_directive_text, split_lines
     rng = ctx.rng
     reqs, checks = [], []
     # splitlines
@@ -381,7 +450,7 @@ def model_tests(ctx):
     for _ in range(ctx.budget(1500, 20000, 20000)):
         s = "".join(rng.choice(alpha) for _ in range(rng.randint(0, 8)))
         reqs.append("splitlines\t" + enc_str(s))
-        checks.append(("splitlines", s, lambda o, s=s: dec_strs(o) == s.splitlines(), lambda s=s: s.splitlines()))
+        checks.append(("split_lines", s, lambda o, s=s: dec_strs(o) == split_lines(s), lambda s=s: split_lines(s)))
     # info string
     for _ in range(ctx.budget(500, 5000, 5000)):
         s = "".join(rng.choice("{}ab \t nt") for _ in range(rng.randint(0, 9)))
@@ -866,7 +935,10 @@ LEVEL_TEXT = ("Proof (Coq): the renderer model with mutable object graph, curren
               "temp root computes a pure denotation of the token forest that depends on the state only through the shared "
               "registries (C06_render_context_free); for admonition wrappers of any depth, fence kind/length and option layout "
               "the wrapped document renders to the admonition nodes around exactly the body's denotation at a constant line "
-              "shift, with the body's registries (C06_directive_transparent, C06_backtick_colon_same, C06_body_offset_*); "
+              "shift, with the body's registries, titled admonitions and all four option layouts included "
+              "(C06_directive_transparent, C06_backtick_colon_same, C06_body_offset_*); the shift is exact: every line + k "
+              "(C06_line_shift_equivariant, C06_directive_transparent_lines); O_adm and O_fence_content are jointly satisfiable "
+              "by a concrete fence model validated against markdown-it (C06_oracles_satisfiable); "
               "include and substitution render the file text / value in place (C06_include_transparent, C06_include_in_place, "
               "C06_subst_transparent); definitions inside stay usable because registries are threaded "
               "(C06_registries_shared); reference definitions do not (C06_refdefs_visible_refuted). Tie: extracted splitter/"
@@ -874,5 +946,5 @@ LEVEL_TEXT = ("Proof (Coq): the renderer model with mutable object graph, curren
               "metamorphic pairs on the implementation, every run.")
 LEVEL_NOTE = ("Partial: markdown-it, docutils' directive classes, Jinja and the file system are oracles (O_fence_content, O_adm, "
               "O_norm, O_fs, O_jinja), exercised on the real libraries by the correspondence; the token/node types are abstract; "
-              "titled admonitions, the '---' option layout and node-level line-shift equivariance are covered by examples and by "
-              "the correspondence only. Open finding: reference definitions inside a nested parse are not usable outside.")
+              "line-shift equivariance excludes documents with include directives (own line numbers) and needs the opaque "
+              "directives to be line-equivariant. Open finding: reference definitions inside a nested parse are not usable outside.")
